@@ -103,6 +103,7 @@ type c18Pool struct {
 	loaderTaken bool             // at most one loader per case
 	grad        *render.Gradient // an initialised gradient shared as a read-only image source
 	mdPaths     []*mdicons.Path  // parsed SVG paths shared by several conversions
+	mdCircles   []mdicons.Circle // the <circle> elements of one parsed icon, shared by several conversions (spare capacity, degenerate radii)
 	rstops      [][]render.Stop  // gradient stops in the Renderer's own form, shared by direct users of render.Gradient
 	firstUse    [][]world.Op     // earlier uses of an object that lives through two uses: may start without Reset, with observers
 	cregs       *[64]color.RGBA
@@ -322,6 +323,16 @@ func c18BuildPool(ctx *Ctx, t *tape.Tape) *c18Pool {
 		}
 		p.mdPaths = append(p.mdPaths, mp)
 	}
+	// the circles of one parsed icon, as an XML decoder leaves them: a slice
+	// with spare capacity; a radius may be zero or negative (hand-edited files)
+	nc := 1 + t.Intn(4)
+	p.mdCircles = make([]mdicons.Circle, nc, nc+2)
+	for i := range p.mdCircles {
+		p.mdCircles[i] = mdicons.Circle{Cx: float32(t.Range(4, 44)), Cy: float32(t.Range(4, 44)), R: float32(t.Range(-1, 6))}
+	}
+	for i := nc; i < nc+2; i++ {
+		p.mdCircles[:nc+2][i] = mdicons.Circle{Cx: 7, Cy: 7, R: 7}
+	}
 	p.cregs = world.GenPalette(t)
 	p.cregs[t.Intn(64)] = color.RGBA{uint8(t.Intn(256)), uint8(t.Intn(256)), uint8(t.Intn(256)), 0}
 	idx := t.Intn(64)
@@ -374,6 +385,10 @@ func (p *c18Pool) hash() uint64 {
 		h = fnvAdd(h, uint64(c.R)|uint64(c.G)<<8|uint64(c.B)<<16|uint64(c.A)<<24)
 	}
 	h = fnvAdd(h, world.DeepHash(p.grad))
+	for _, c := range p.mdCircles[:cap(p.mdCircles)] {
+		h = fnvAdd(h, uint64(float32bits(c.Cx))|uint64(float32bits(c.Cy))<<32)
+		h = fnvAdd(h, uint64(float32bits(c.R)))
+	}
 	for _, mp := range p.mdPaths {
 		h = fnvAdd(h, fnv([]byte(mp.D+"|"+mp.Fill)))
 		for _, o := range []*float32{mp.Opacity, mp.FillOpacity} {
@@ -622,6 +637,9 @@ func c18MakeTask(t *tape.Tape, p *c18Pool) c18Task {
 			shared = p.mdPaths[t.Intn(len(p.mdPaths))]
 		}
 		nilAdjs := t.Chance(1, 4)
+		if t.Bool() {
+			circles = p.mdCircles[:t.Intn(len(p.mdCircles)+1)] // the same parsed circles converted by several pipelines
+		}
 		return c18Task{name: "mdicons.ParsePath (opacity blend, circles) -> Encoder", run: func() string {
 			var e encode.Encoder
 			e.Reset(ivg.ViewBox{MinX: -24, MinY: -24, MaxX: 24, MaxY: 24}, ivg.DefaultPalette)
